@@ -31,6 +31,8 @@ func c11(c *q.Ctx) {
 	}
 	c.MemoFields("kernel/permission/acl", "Manager", map[string]string{}, "ACL answers come out of the tip snapshot on every call")
 	permTree(c)
+	methodPermArgs(c)
+	liveModelHandOut(c)
 	vp := c.Fn(ut + "validatePermTree")
 	if vp != nil {
 		c.ReturnIs(vp, 0, []string{"false", "(2 == p0.Status)"}, "the verdict is the status computed for the root")
@@ -181,5 +183,28 @@ func aclValidators(c *q.Ctx) {
 		c.ArgIs(av, "AKSetsValidator.validateAkSet", 2, "p1.Children", 1, "a set is checked against the signers of this node")
 		c.ArgIs(av, "AKSetsValidator.validateAkSet", 1, "p1.ACL.AkSets.Sets[]", 1, "every listed set is tried")
 		c.Guard(av, q.Cond{Canon: "(0 == len(p1.ACL.AkSets.Sets))", Sense: true}, q.ToSuccess(), q.Opt{})
+	}
+}
+
+// methodPermArgs (C11, C07): both entry points of the method-permission check - the transaction verifier and the
+// ChainCore call used for cross-contract calls - hand (contract, method) to the ACL evaluation in that order: a
+// swapped pair looks up a rule that does not exist, and a missing rule admits everybody.
+func methodPermArgs(c *q.Ctx) {
+	const st = "bcs/ledger/xledger/state::"
+	if f := c.Fn(st + "(*State).VerifyContractPermission"); f != nil {
+		c.ArgIs(f, "utils::CheckContractMethodPerm", 2, "p3", 1, "the contract name parameter is the contract")
+		c.ArgIs(f, "utils::CheckContractMethodPerm", 3, "p4", 1, "the method name parameter is the method")
+	}
+	if f := c.Fn(st + "(*State).verifyContractPermission"); f != nil {
+		c.ArgIs(f, "utils::CheckContractMethodPerm", 2, "p1.ContractRequests[].ContractName", 1, "the request's contract")
+		c.ArgIs(f, "utils::CheckContractMethodPerm", 3, "p1.ContractRequests[].MethodName", 1, "the request's method")
+	}
+	if f := c.Fn("kernel/permission/acl/utils::CheckContractMethodPerm"); f != nil {
+		c.ArgIs(f, "ptree::BuildMethodPermTree", 1, "p2", 1, "the tree is built for (contract, method)")
+		c.ArgIs(f, "ptree::BuildMethodPermTree", 2, "p3", 1, "the tree is built for (contract, method)")
+	}
+	if f := c.Fn("kernel/permission/acl/ptree::BuildMethodPermTree"); f != nil {
+		c.ArgIs(f, "AclManager.GetContractMethodACL", 0, "p1", 1, "the rule is looked up under (contract, method)")
+		c.ArgIs(f, "AclManager.GetContractMethodACL", 1, "p2", 1, "the rule is looked up under (contract, method)")
 	}
 }
